@@ -71,7 +71,7 @@ Plan generate(const std::string& prop, int tier, uint64_t batchSeed, uint64_t id
         cfg.set("mean", r.pick<int64_t>({1, 2, 5, 20, 100, 1000, 10000}));
         cfg.set("mode", r.chance(1, 4) ? 1 : 0).set("points", static_cast<int64_t>(1 + r.below(6)));
         p.items.push_back(cfg);
-        const bool sameWorkload = r.chance(1, 3);  // identical workloads on all threads: every access has a twin
+        const bool sameWorkload = r.chance(1, 2);  // identical workloads on all threads: every access (also on rare paths) has a twin
         const int shared = mixn[r.below(10)];
         const uint64_t sharedIdx = r.next() % 1000000;
         for (int t = 0; t < n; ++t)
@@ -80,16 +80,33 @@ Plan generate(const std::string& prop, int tier, uint64_t batchSeed, uint64_t id
             char name[8];
             snprintf(name, sizeof name, "C%02d", pn);
             Plan sub = generate(name, 0, batchSeed ^ 0xC19, sameWorkload ? sharedIdx : r.next() % 1000000);
-            const size_t maxOps = tier ? 8 : 5;
-            size_t ops = 0;
+            const size_t maxOps = tier ? 9 : 6;
+            // a random subset of the operations (order kept): later operations of a plan - removals, restarts, the n-th
+            // call - get their turn as well. Identical on all threads when the workload is shared.
+            std::vector<size_t> opIdx;
+            for (size_t i = 0; i < sub.items.size(); ++i)
+                if (sub.items[i].tag == "op")
+                    opIdx.push_back(i);
+            std::vector<bool> keepOp(sub.items.size(), false);
+            {
+                Rng pickr(sameWorkload ? sharedIdx : r.next(), "c19-ops");
+                std::vector<size_t> chosen = opIdx;
+                for (size_t i = chosen.size(); i > 1; --i)
+                    std::swap(chosen[i - 1], chosen[pickr.below(i)]);
+                if (chosen.size() > maxOps)
+                    chosen.resize(maxOps);
+                for (size_t i : chosen)
+                    keepOp[i] = true;
+            }
+            size_t itemNo = 0;
             bool hasCfg = false;
             for (auto& it : sub.items)
             {
+                const size_t myNo = itemNo++;
                 if (it.tag == "op")
                 {
-                    if (ops >= maxOps)
+                    if (!keepOp[myNo])
                         continue;
-                    ++ops;
                     // keep single operations small
                     if (it.sub.size() > 6)
                         it.sub.resize(6);
